@@ -362,7 +362,15 @@ func init() {
 			o.Case("http:harness", "failed:not enough valid samples", "conc")
 			return
 		}
-		keyOf := func(m *Msg) string { return strings.TrimPrefix(msgResult(wire.File{FEDWireMessage: *m.ToWire()}), "ok|") }
+		keyOf := func(m *Msg) string {
+			k := strings.TrimPrefix(msgResult(wire.File{FEDWireMessage: *m.ToWire()}), "ok|")
+			if _, ok := linTextOf[k]; !ok {
+				if res, _ := m.Write(false, "\n"); strings.HasPrefix(res, "ok:") {
+					linTextOf[k] = string(unhexs(res[3:]))
+				}
+			}
+			return k
+		}
 		nh := 6
 		if thorough {
 			nh = 40
@@ -389,7 +397,7 @@ func init() {
 					var op httpOp
 					k := ""
 					// A and B: created, read, deleted; C: created, read, replaced through add-message (never deleted)
-					switch rng.Intn(12) {
+					switch rng.Intn(14) {
 					case 0, 1:
 						m := pool[rng.Intn(len(pool))]
 						id := []string{"A", "B", "C"}[rng.Intn(3)]
@@ -402,7 +410,7 @@ func init() {
 						} else {
 							op = opSimple("get", []string{"A", "B", "C"}[rng.Intn(3)])
 						}
-					case 4:
+					case 4, 12, 13:
 						op = opSimple("contents", []string{"A", "B", "C"}[rng.Intn(3)])
 					case 5:
 						op = opSimple("validate", []string{"A", "B", "C"}[rng.Intn(3)])
@@ -427,6 +435,33 @@ func init() {
 			all = append(all, ops)
 			keys = append(keys, ks)
 			scripts = append(scripts, map[string]interface{}{"mode": "conc", "clients": clients, "ops": ops})
+		}
+		// bursts of overlapping renderings: every client stores a fixed message under its identifier and then
+		// fetches the contents of all three identifiers over and over (responses must never mix)
+		nb := 2
+		if thorough {
+			nb = 10
+		}
+		for bsi := 0; bsi < nb; bsi++ {
+			var ops []httpOp
+			var ks []string
+			for c := 0; c < 16; c++ {
+				ids := []string{"A", "B", "C"}
+				m := pool[(c%3)%len(pool)]
+				op := opCreateJSON(ids[c%3], m)
+				op.Client = c
+				ops = append(ops, op)
+				ks = append(ks, keyOf(m))
+				for i := 0; i < 30; i++ {
+					op := opSimple("contents", ids[(c+i)%3])
+					op.Client = c
+					ops = append(ops, op)
+					ks = append(ks, "")
+				}
+			}
+			all = append(all, ops)
+			keys = append(keys, ks)
+			scripts = append(scripts, map[string]interface{}{"mode": "conc", "clients": 16, "ops": ops})
 		}
 		results, err := runServerScripts(scripts, true)
 		if err != nil {
@@ -512,6 +547,9 @@ func init() {
 	}
 }
 
+// default-layout text of each pool message, by content key
+var linTextOf = map[string]string{}
+
 type linIn struct{ op, id, key, ct string }
 type linOut struct {
 	status int
@@ -568,9 +606,14 @@ var linModel = porcupine.Model{
 			sort.Strings(got)
 			return out.status == 200 && strings.Join(ids, ",") == strings.Join(got, ",") && out.res.Count == fmt.Sprint(len(ids)), state
 		case "contents", "validate":
-			_, ok := st[in.id]
+			v, ok := st[in.id]
 			if !ok {
 				return out.status == 404, state
+			}
+			if in.op == "contents" && out.status == 200 {
+				if want, known := linTextOf[v]; known && want != string(body) {
+					return false, state // the body is not the text of the file stored under this identifier
+				}
 			}
 			return out.status == 200, state
 		case "add":
